@@ -175,7 +175,7 @@ func (rp *replayer) replay(vr *violationReport, ov *overlayInfo) string {
 	tries := 1
 	schedDependent := false
 	for _, c := range v.Choices {
-		if c.Kind == "sched" || c.Kind == "select" {
+		if c.Kind == "sched" || c.Kind == "select" || c.Kind == "maporder" {
 			schedDependent = true
 		}
 	}
@@ -197,6 +197,7 @@ func (rp *replayer) replay(vr *violationReport, ov *overlayInfo) string {
 		switch v.Kind {
 		case "assert":
 			if strings.Contains(out, "REPLAY-FAIL "+v.Label) {
+				os.WriteFile(strings.TrimSuffix(vr.Replay, ".json")+".native.txt", []byte(trunc(out, 20000)), 0o644)
 				return "reproduced"
 			}
 		case "panic", "goroutine-panic":
